@@ -389,3 +389,21 @@ Print Assumptions C17_render_sites_recorded.
 Print Assumptions C17_string_slice_guarded.
 Print Assumptions C17_render_sites_classified.
 Print Assumptions C17_render_total_translated.
+
+(* ---- HoverEvent.Contents non-nil, JSON form (separate small model Model/C17_hover.v): every Go value of the
+   universe encoding/json decodes an interface into (nil, bool, integral float64, string, []any, map[string]any;
+   a map represented by its sorted duplicate-free association list: canon) survives Marshal / Unmarshal, and so
+   does the hover event carrying it (action, contents, value normalised like every component) *)
+From GoMC Require Import Model.C17_hover Proofs.C17_hover.
+Theorem C17_any_rt : forall c, canon c = true -> dec_any (enc_any c) = c.
+Proof. exact any_rt. Qed.
+Theorem C17_hover_contents_rt : forall a c v, canon c = true ->
+  hover_of_json (hover_to_json a c v) = Some (a, c, norm v).
+Proof. exact hover_json_rt. Qed.
+Example C17_ex_contents :
+  canon (CObj [([97], CArr [CNum 1; CNull]); ([98], CStr [120])]) = true
+  /\ dec_any (JObj [([98], JNum 1); ([97], JNull); ([98], JStr [120])]) = CObj [([97], CNull); ([98], CStr [120])].
+Proof. split; reflexivity. Qed.
+
+Print Assumptions C17_any_rt.
+Print Assumptions C17_hover_contents_rt.
